@@ -53,6 +53,11 @@ fn limits() {
         libc::setrlimit(libc::RLIMIT_CORE, &core);
     }
     flussab_verif::alloc::set_refuse_above(1 << 30);
+    // Keep medium-sized buffers on the heap instead of mmap/munmap per case (page-fault churn).
+    unsafe {
+        libc::mallopt(libc::M_MMAP_THRESHOLD, 256 << 20);
+        libc::mallopt(libc::M_TRIM_THRESHOLD, 512 << 20);
+    }
 }
 
 fn shard(a: &[String]) {
